@@ -11,7 +11,7 @@ KEYWORDS = set('as break const continue crate else enum extern false fn for if i
 # identifiers the harvest corpus itself supplies (the user's side of the harvest inputs)
 CORPUS_OWN = set('Ty V0 V1 V2 f0 f1 f2 T U N W Zz kk a fmt_m clone_m eq_m cmp_m hash_m conv_m m u8 u16 u32 u64 usize bool str Vec'.split())
 SETS = ['Debug', 'Clone', 'CopyClone', 'PartialEq', 'PartialOrd', 'Ord', 'Hash', 'Default', 'Deref', 'Into']
-ENV_SETS = SETS + ['CopyCloneM', 'EqM', 'OrdM', 'POrdM', 'HashM', 'DebugFlipM', 'DebugOff']
+ENV_SETS = SETS + ['CopyCloneM', 'EqM', 'OrdM', 'POrdM', 'HashM', 'DebugFlipM', 'DebugOff', 'DefaultT']
 NEUTRAL = {'ty': 'Ty', 'lt': 'l', 'tp': 'P', 'cp': 'CP', 'f0': 'g0', 'f1': 'g1', 'f2': 'g2', 'v0': 'W0', 'v1': 'W1'}
 
 
@@ -67,6 +67,9 @@ def attrs(s, kind):
         return ['Hash'], {2: 'Hash(ignore)'}, {}
     if s == 'Default':
         return ['Default(new)'], {1: 'Default = 7'}, {1: 'Default'}
+    if s == 'DefaultT':
+        # the default variant is the tuple variant (its fields carry the attributes; the template arm for nameless fields)
+        return ['Default(new)'], {1: 'Default = 7'}, {0 if kind == 'en' else 1: 'Default'}
     if s == 'Deref':
         return ['Deref', 'DerefMut'], {1: 'Deref, DerefMut'}, {}
     if s == 'Into':
@@ -98,7 +101,7 @@ def attrs(s, kind):
 
 
 XSETS = ['DebugFlip', 'DebugFlipM', 'DebugOff', 'EqM', 'OrdM', 'POrdM', 'HashM', 'CloneM2']
-BASE = {'CopyCloneM': 'CopyClone', 'DebugFlip': 'Debug', 'DebugFlipM': 'Debug', 'DebugOff': 'Debug', 'EqM': 'PartialEq', 'OrdM': 'Ord', 'POrdM': 'PartialOrd', 'HashM': 'Hash', 'CloneM2': 'Clone'}
+BASE = {'DefaultT': 'Default', 'CopyCloneM': 'CopyClone', 'DebugFlip': 'Debug', 'DebugFlipM': 'Debug', 'DebugOff': 'Debug', 'EqM': 'PartialEq', 'OrdM': 'Ord', 'POrdM': 'PartialOrd', 'HashM': 'Hash', 'CloneM2': 'Clone'}
 
 # trait sets with a method field: (set, the path the catalogue writes, the support function the hostile name is an alias of; None: a generic function defined under that name)
 METHOD_SETS = [('Debug', 'fmt_m', 'fmt_m'), ('DebugFlipM', 'fmt_m', 'fmt_m'), ('EqM', 'eq_any', 'eq_any'), ('OrdM', 'cmp_any', 'cmp_any'), ('POrdM', 'pcmp_same', 'pcmp_same'),
@@ -108,6 +111,7 @@ METHOD_SETS = [('Debug', 'fmt_m', 'fmt_m'), ('DebugFlipM', 'fmt_m', 'fmt_m'), ('
 def program(s, kind, nm, with_check=True, derive=True):
     """kind: sn (named struct) | st (tuple struct) | en (enum: tuple variant + named variant).  nm: names."""
     tl, fm, vm = attrs(s, kind)
+    deft = s == 'DefaultT' and kind == 'en'
     s = BASE.get(s, s)
     ty, lt, tp, cp = nm['ty'], nm['lt'], nm['tp'], nm['cp']
     gdecl = "<'%s, %s, const %s: usize>" % (lt, tp, cp)
@@ -159,13 +163,16 @@ def program(s, kind, nm, with_check=True, derive=True):
     else:
         va = ('    #[educe(%s)]\n' % vm[1]) if (derive and 1 in vm) else ''
         va0 = ('#[educe(%s)]\n    ' % vm[0]) if (derive and 0 in vm) else ''
-        fa0 = (lambda k: '') if s == 'Default' else fa
+        fa0 = (lambda k: '') if (s == 'Default' and not deft) else fa
+        fan = (lambda k: '') if deft else fa
         unit = '' if s in ('Deref', 'Into') else '    Zunit,\n'
         src = head + 'pub enum %s%s%s {\n    %s%s(%s%s, %s%s, %s%s),\n%s    %s { %s },\n%s}\n' % (
             ty, gdecl, where, va0, nm['v0'], fa0(0), fts[0], fa0(1), fts[1], fa0(2), fts[2], va, nm['v1'],
-            ', '.join('%s%s: %s' % (fa(k), fn[k], fts[k]) for k in range(3)), unit)
+            ', '.join('%s%s: %s' % (fan(k), fn[k], fts[k]) for k in range(3)), unit)
         mk = lambda vals: '%s::%s { %s }' % (ty, nm['v1'], ', '.join('%s: %s' % (fn[k], vals[k]) for k in range(3)))
         get1 = lambda x: 'match &%s { %s::%s { %s: q, .. } => *q, _ => 0 }' % (x, ty, nm['v1'], fn[1])
+        if deft:
+            get1 = lambda x: 'match &%s { %s::%s(_, q, _) => *q, _ => 0 }' % (x, ty, nm['v0'])
     if not derive:
         src += 'pub trait VerifMarker {}\nimpl%s VerifMarker for %s%s%s {}\n' % (gdecl, ty, gargs, where)
         return src
